@@ -162,3 +162,18 @@ Qed.
 Lemma uai_plus_exponent_upto24_l : forall s, shape_within 24 s ->
   uai_ok (render s) = true /\ uai_noplus_ok (render s) = negb (has_plus_exponent s).
 Proof. exact plus_exponent_upto24. Qed.
+
+(* round_values (BIFWriter / UAIWriter): the writers round every entry before the layout, so what is read back is
+   exactly the model with every table entry replaced by its rounding (UAI: renamed by the numbering) *)
+Lemma round_values_roundtrip_l : forall (A : Type) (d : A) (rnd : A -> A) (m : bn A),
+  wf_bn m -> (forall c, In c m -> Forall (@NoDup state) (pstates c)) ->
+  bif_read d (bif_write d (map (rounded rnd) m)) = Some (sort_by (@child_leb A) (map (rounded rnd) m)) /\
+  uai_read (uai_write (map (rounded rnd) m))
+  = Some (map (renum (uai_num (uai_variables (uai_domain_bn (map (rounded rnd) m)))))
+              (sort_by (@child_leb A) (map (rounded rnd) m))).
+Proof.
+  intros A d rnd m Hwf Hnd. pose proof (wf_bn_rounded rnd m Hwf) as Hwf'. split.
+  - apply bif_roundtrip; [exact Hwf'|]. intros c' Hc'. apply in_map_iff in Hc'. destruct Hc' as [c [E Hc]]. subst c'.
+    apply (Hnd c Hc).
+  - now apply uai_roundtrip.
+Qed.
